@@ -15,10 +15,13 @@ func dadv(peer, origin int, seq uint64, pat string, metric uint16) rh.Op {
 	return rh.Op{Code: rh.OpDAdv, Peer: peer, Origin: origin, Seq: seq, Path: []int{peer}, Ents: []rh.Ent{{Name: pat, Metric: metric}}}
 }
 func dl(name string) rh.Op { return rh.Op{Code: rh.OpDLookup, Name: name} }
+func fadv(peer, origin int, seq uint64, key string, metric uint16) rh.Op {
+	return rh.Op{Code: rh.OpFAdv, Peer: peer, Origin: origin, Seq: seq, Path: []int{peer}, Ents: []rh.Ent{{Name: key, Target: "h:1", Metric: metric}}}
+}
 
 // Fixed regression histories (the situations the property text names).
 func fixed() ([]string, map[string][]rh.Op) {
-	names := []string{"exact-over-wildcard", "wildcard-one-level", "degenerate-wildcards", "case-insensitive", "lowest-metric", "forward-and-agent"}
+	names := []string{"exact-over-wildcard", "wildcard-one-level", "degenerate-wildcards", "case-insensitive", "lowest-metric", "forward-and-agent", "forward-disconnect-order", "refresh-then-cleanup"}
 	return names, map[string][]rh.Op{
 		"exact-over-wildcard": {
 			dadv(1, 1, 1, "*.example.com", 0), dadv(2, 2, 1, "api.example.com", 9),
@@ -36,6 +39,29 @@ func fixed() ([]string, map[string][]rh.Op) {
 		"case-insensitive": {
 			dadv(1, 1, 1, "API.Example.COM", 3), dadv(2, 2, 1, "*.EXAMPLE.com", 1), dadv(2, 3, 1, "api.example.com", 2),
 			dl("api.example.com"), dl("Api.eXample.Com"), dl("WWW.example.COM"),
+			// upper case in the first label only: the rest already equals the wildcard's map key
+			dl("API.example.com"), dl("Api.example.com"), dl("aPi.example.com"),
+		},
+		// three origins through three peers; the best one's peer disconnects: the survivors stay in metric order
+		"forward-disconnect-order": {
+			fadv(1, 1, 1, "web", 0), fadv(2, 2, 1, "web", 3), fadv(3, 3, 1, "web", 7),
+			{Code: rh.OpFLookup, Name: "web"}, {Code: rh.OpFDisc, Peer: 1}, {Code: rh.OpFLookup, Name: "web"},
+			dadv(1, 1, 1, "a.test.com", 0), dadv(2, 2, 1, "a.test.com", 3), dadv(3, 3, 1, "a.test.com", 7),
+			{Code: rh.OpDDisc, Peer: 1}, dl("a.test.com"),
+			{Code: rh.OpAAdv, Peer: 1, Origin: 4, Agent: 4, Seq: 1, Metric: 1, Path: []int{1, 4}},
+			{Code: rh.OpAAdv, Peer: 2, Origin: 4, Agent: 4, Seq: 1, Metric: 4, Path: []int{2, 4}},
+			{Code: rh.OpAAdv, Peer: 3, Origin: 4, Agent: 4, Seq: 1, Metric: 8, Path: []int{3, 4}},
+			{Code: rh.OpADisc, Peer: 1}, {Code: rh.OpALookup, Agent: 4},
+		},
+		// periodic re-advertisement refreshes the route: a cleanup right after must keep it
+		"refresh-then-cleanup": {
+			fadv(1, 1, 1, "web", 2), fadv(2, 2, 1, "web", 7), {Code: rh.OpTick, Ms: 5000},
+			fadv(1, 1, 2, "web", 2), {Code: rh.OpFClean, Ms: 1000}, {Code: rh.OpFLookup, Name: "web"},
+			dadv(1, 1, 1, "a.test.com", 2), {Code: rh.OpTick, Ms: 5000}, dadv(1, 1, 2, "a.test.com", 2),
+			{Code: rh.OpDClean, Ms: 1000}, dl("a.test.com"),
+			{Code: rh.OpAAdv, Peer: 1, Origin: 4, Agent: 4, Seq: 1, Metric: 1, Path: []int{1, 4}}, {Code: rh.OpTick, Ms: 5000},
+			{Code: rh.OpAAdv, Peer: 1, Origin: 4, Agent: 4, Seq: 2, Metric: 1, Path: []int{1, 4}},
+			{Code: rh.OpAClean, Ms: 1000}, {Code: rh.OpALookup, Agent: 4},
 		},
 		"lowest-metric": {
 			dadv(1, 1, 1, "a.test.com", 7), dadv(2, 2, 1, "a.test.com", 2), dadv(3, 3, 1, "A.test.com", 2), dadv(1, 4, 1, "a.TEST.com", 4),
@@ -71,8 +97,14 @@ func TestVerif(t *testing.T) {
 	}
 	if c.Replay != "" {
 		var h rh.History
-		if err := c.ReadReplay(&h); err != nil {
-			t.Fatal(err)
+		if err := c.ReadReplay(&h); err != nil || len(h.Ops) == 0 {
+			// a failure of the concurrent phase has no operation history: re-run the phase
+			for _, f := range rh.ConcurrentSameSlot(60, 50000) {
+				c.Fail(f.Sig, f.Detail, "concurrent same-slot phase")
+				fmt.Printf("replay: %s: %s\n", f.Sig, f.Detail)
+			}
+			rh.WriteCases(c, nil)
+			return
 		}
 		o := rh.RunFixed(t, h.Name, h.Profile, h.Pools, h.Ops, mon, 2)
 		add(o)
@@ -95,6 +127,13 @@ func TestVerif(t *testing.T) {
 			}
 			add(rh.RunGenerated(t, fmt.Sprintf("gen-%d", i), g, mon, nm, 2))
 		}
+	}
+	if c.Replay == "" {
+		// concurrent phase (both tiers): same key and origin added from several goroutines at once
+		for _, f := range rh.ConcurrentSameSlot(c.N(30, 120), c.N(20000, 50000)) {
+			c.Fail(f.Sig, f.Detail, "concurrent same-slot phase: 4 goroutines advertise sequences 1..4 of one origin for one key while RemoveRoutesFromPeer scans the table")
+		}
+		c.Count("concurrent-same-slot-phase")
 	}
 	if c.Thorough() && c.Replay == "" {
 		for _, f := range rh.Stress(c.Rand.Fork(), 8, 3000) {
